@@ -110,6 +110,8 @@ def OBJECT(cls, **attrs):
 
 
 HOSTFN = Dom(['hostfn'], label='HOSTFN')
+SYMMAP = Dom(['symmap'], label='SYMMAP')                                       # a per-instance dict with text keys
+SYMMAP_LISTS = Dom(['symmap'], attrs={'default_list': True}, label='SYMMAP_LISTS')   # defaultdict(list)
 
 
 def PROD(lhs, *rhs):
@@ -149,6 +151,36 @@ class Token(object):
         return '<%s>' % self.name
 
 
+def host_calls():
+    raise NotImplementedError('host_calls() is only available to the symbolic executor')
+
+
+def setter_values():
+    raise NotImplementedError('setter_values() is only available to the symbolic executor')
+
+
+def emits(obj):
+    raise NotImplementedError('emits() is only available to the symbolic executor')
+
+
+def registry_has(name):
+    from hotxlfp import formulas
+    return formulas.is_supported(name)
+
+
+def registry_fn(name):
+    from hotxlfp import formulas
+    return formulas.dispatcher._registry_[name]
+
+
+def map_has(m, key):
+    return key in m
+
+
+def map_get(m, key):
+    return m[key]
+
+
 def result_of(contract_cls, *args):
     return contract_cls.spec(*args)
 
@@ -180,7 +212,9 @@ class ContractDecl(object):
         self.kw = kw
 
     def get(self, name, default=None):
-        return self.cls.__dict__.get(name, default)
+        if name in self.cls.__dict__:
+            return self.cls.__dict__[name]
+        return self.kw.get(name, default)
 
 
 def contract(target, props=(), **kw):
@@ -329,6 +363,17 @@ def parity_true(items):
     return sum(1 for a in items if a) % 2 == 1
 
 
+def label_parts(label):
+    import re
+    m = re.match(r'(\$?)([A-Za-z]+)(\$?)([0-9]+)\Z', label)
+    return (m.group(1) == '$', m.group(2), m.group(3) == '$', m.group(4))
+
+
+def parsed_label(index, label, is_absolute):
+    from hotxlfp.helper.cell import ParsedLabel
+    return ParsedLabel(index=index, label=label, is_absolute=is_absolute)
+
+
 def is_cell_label(s):
     import re
     return isinstance(s, str) and re.match(r'\$?[A-Za-z]+\$?[0-9]+\Z', s) is not None
@@ -414,9 +459,9 @@ def ceil(x):
 
 
 NATIVE_NAMES = ['Outcome', 'Dom', 'NONE_T', 'BOOL', 'INT', 'FLOAT', 'STR', 'ERR', 'DATE', 'NUMBER', 'NUMBERB', 'SCALAR',
-                'HOSTOBJ', 'ANY', 'VALUE_T', 'SEQ', 'ARGS', 'CONST', 'TUPLE', 'LISTN', 'OBJECT', 'HOSTFN', 'OMITTED', 'PROD', 'calls', 'call_result', 'result_of', 'contract',
+                'HOSTOBJ', 'ANY', 'VALUE_T', 'SEQ', 'ARGS', 'CONST', 'TUPLE', 'LISTN', 'OBJECT', 'HOSTFN', 'SYMMAP', 'SYMMAP_LISTS', 'OMITTED', 'host_calls', 'emits', 'setter_values', 'registry_has', 'registry_fn', 'map_has', 'map_get', 'PROD', 'calls', 'call_result', 'result_of', 'contract',
                 'lemma', 'is_none', 'is_bool', 'is_int', 'is_float', 'is_num', 'is_numb', 'is_str', 'is_err', 'is_date',
-                'is_list', 'is_obj', 'same', 'truthy', 'implies', 'raises', 'raise_err', 'forall', 'exists', 'flat', 'collapse_spaces', 'replace_kth', 'col_value', 'col_label', 'is_cell_label', 'parity_true', 'xl_type', 'date_us', 'date_from_us', 'dateutil_parse',
+                'is_list', 'is_obj', 'same', 'truthy', 'implies', 'raises', 'raise_err', 'forall', 'exists', 'flat', 'collapse_spaces', 'replace_kth', 'col_value', 'col_label', 'is_cell_label', 'label_parts', 'parsed_label', 'parity_true', 'xl_type', 'date_us', 'date_from_us', 'dateutil_parse',
                 'int_of_text', 'text_is_int', 'float_of_text', 'text_is_float', 'errmsg', 'is_canonical', 'real',
                 'floor', 'ceil']
 ERR_NAMES = ['ERROR', 'DIV_ZERO', 'NAME', 'NOT_AVAILABLE', 'NULL', 'NUM', 'REF', 'VALUE', 'DATA']
